@@ -218,7 +218,10 @@ theorem tail_oneway (c : Cfg) (ar aq : Nat) (s : S) (b : Base c ar aq s) (hrun :
   · intro _ hh; simp [how] at hh
   · intro _ hh; simp [how] at hh
   · intro _ hh; simp at hh
-  · intro _ _ hu; exact h27 hu
+  · intro _ _ hu
+    rcases h27 hu with h | h
+    · exact Or.inl h
+    · exact Or.inr (Or.inl h)
   · intro _ hh; simp at hh
   · intro _ _ hh; simp at hh
   · intro _ hh; simp at hh
